@@ -120,7 +120,8 @@ def bi_rectangular(length_x, length_y, b_min, b_max_x, b_max_y, transpose=False,
     n_min = ceil(n_1_min)
     n_max = floor(n_1_max)
     for n_1 in range(n_min, n_max + 1):
-        n_2 = ceil((length_2 / b_max_2) + 1)
+        # b_max_2 may itself be length_2 / k: guard the ceil against round-off in length_2 / (length_2 / k)
+        n_2 = ceil((length_2 / b_max_2) + 1 - 1.0e-9)
         b_2 = length_2 / (n_2 - 1)
 
         b_1 = length_1 / (n_1 - 1)
